@@ -165,6 +165,20 @@ def run(tier, seed):
             accs = [sum(math.exp(-(sq * BU * BU) / (2.0 * sigma ** 2)) for sq in v["sq"]) / (0.5 * v["norm2"]) for v in o["cem"]]
             kw = {} if sigma == 0.04 else {"cemgil_sigma": sigma}
             check("beat.cemgil", lambda: me.beat.cemgil(ref, est, **kw), [accs[0], max(accs)], dict(d, sigma=sigma))
+        if r["thr"] == [1, 5]:
+            check("beat.continuity", lambda: me.beat.continuity(ref, est), [fr(x) for x in o["cont"]], d)
+            check("beat.continuity", lambda: me.beat.continuity(ref, est, continuity_phase_threshold=0.5, continuity_period_threshold=0.25),
+                  [fr(x) for x in o["cont2"]], dict(d, params="(.5,.25)"))
+            if o["igok"] and not (o["igf"]["edge"] or o["igb"]["edge"]):
+                def H(c):
+                    n = float(sum(c))
+                    return -sum((x / n) * math.log2(x / n) for x in c if x > 0)
+                ig = (math.log2(5) - max(H(o["igf"]["counts"]), H(o["igb"]["counts"]))) / math.log2(5)
+                early = o["igf"]["early"] or o["igb"]["early"]
+                check("beat.information_gain", lambda: me.beat.information_gain(ref, est, bins=5), [ig], dict(d, bins=5),
+                      cls="a-beat-precedes-the-other-sequence's-first-beat/value-differs" if early else "value-differs")
+            elif o["igok"]:
+                skipped += 1
         ev.case(("beat", r["ref"], r["est"], r["thr"]), nontrivial=o["ps"]["score"][0] > 0)
     ev.sample({"model": "MC_C04_beat", "row": brow[len(brow) // 2]})
     # pattern discovery scores
